@@ -160,6 +160,8 @@ var c13Nulls = []nullKind{
 		}
 		return c
 	}},
+	{"Dict{}", func() jen.Code { return jen.Dict{} }},
+	{"Dict{Null(): Null()}", func() jen.Code { return jen.Dict{jen.Null(): jen.Null()} }},
 	{"nil wrapped in 101 nested List", func() jen.Code {
 		var c jen.Code
 		for i := 0; i < 101; i++ {
@@ -312,15 +314,29 @@ func c13Empty(lc listConstruct, arity, pos int) string {
 		items[pos] = mid
 		return c13RenderStmt(lc.build(items))
 	}
-	e, o := mk(jen.Empty()), mk(jen.Id("ΩΩ"))
-	if !e.OK() || !o.OK() {
-		if e.Key() != o.Key() {
-			return fmt.Sprintf("Empty() gives %s, an identifier in its place gives %s", e, o)
+	o := mk(jen.Id("ΩΩ"))
+	// Empty() alone, and Empty() at the end of a statement that consists of null items only: the
+	// statement renders nothing but is a real item all the same
+	for _, ek := range []struct {
+		name string
+		mk   func() jen.Code
+	}{
+		{"Empty()", func() jen.Code { return jen.Empty() }},
+		{"Null().Empty()", func() jen.Code { return jen.Null().Empty() }},
+		{"Add(nil).Empty()", func() jen.Code { return jen.Add(nil).Empty() }},
+		{"List().Empty()", func() jen.Code { return jen.List().Empty() }},
+		{"Empty().Null()", func() jen.Code { return jen.Empty().Null() }},
+	} {
+		e := mk(ek.mk())
+		if !e.OK() || !o.OK() {
+			if e.Key() != o.Key() {
+				return fmt.Sprintf("%s gives %s, an identifier in its place gives %s", ek.name, e, o)
+			}
+			continue
 		}
-		return ""
-	}
-	if want := strings.ReplaceAll(o.Out, "ΩΩ", ""); e.Out != want {
-		return fmt.Sprintf("with Empty() at position %d: %q; with an identifier there and the identifier deleted: %q", pos, e.Out, want)
+		if want := strings.ReplaceAll(o.Out, "ΩΩ", ""); strings.ReplaceAll(e.Out, " ", "") != strings.ReplaceAll(want, " ", "") || (ek.name == "Empty()" && e.Out != want) {
+			return fmt.Sprintf("with %s at position %d: %q; with an identifier there and the identifier deleted: %q", ek.name, pos, e.Out, want)
+		}
 	}
 	return ""
 }
@@ -342,11 +358,11 @@ func runC13(r *ev.Recorder) {
 	}
 	r.Rule = fmt.Sprintf("list constructs discovered by reflection over *Statement's method set at check time (%d: every variadic ...Code builder, its ...Func variant, Custom/CustomFunc with 6 option shapes incl. multi-line without opening token): %v. "+
 		"(a) injection: arities 0..%d (real items: identifiers; for arities 1..3 also with a line comment as last / first item and with a trailing comment on every item); at every slot (before, between, after the real items) up to 2 null items of %d kinds %v, with at most %d injected items per case (choice-point explorer); oracle: raw rendering identical to the one without injections (differential, fresh objects). "+
-		"also arities 8, 17, 40, 130 with one null item at every slot and with null items at all slots, and arities 260, 520, ..., 4160 with null items at all slots / first / middle / last (real and total item counts straddle every size up to 4160). (b) Empty(): at every position of every arity 1..%d; oracle: raw bytes equal those with an identifier in its place after deleting the identifier. "+
+		"also arities 8, 17, 40, 130 with one null item at every slot and with null items at all slots, and arities 260, 520, ..., 4160 with null items at all slots / first / middle / last (real and total item counts straddle every size up to 4160). (b) Empty() - alone and at the end of statements made of null items only (Null().Empty(), Add(nil).Empty(), List().Empty(), Empty().Null()) -: at every position of every arity 1..%d; oracle: raw bytes equal those with an identifier in its place after deleting the identifier. "+
 		"(c) re-render: a placeholder item (Null() or a token-less &Statement{}; bare, or inside List/Union/Add/Custom/Types) that is null at the first render and real at the second, and vice versa; each render must equal a freshly built list. "+
 		"(d) one argument slice with nil entries spread into two constructs (every ordered pair of constructs x every nil placement): both render as if built privately, twice, and the caller's slice is unchanged. "+
 		"(f) every ordered pair of ...Func constructs built with g.Null() placeholders: filling the first one's placeholder afterwards changes only the first. (e) program level: real programs of the corpus, translated into the DSL with null items injected at every list-construct site under 3 uniform policies, must re-parse to the same syntax tree. distinct_nontrivial = distinct (construct, item list) cases with at least one injected/Empty/placeholder item", len(c13Constructs), cn, maxArity, len(c13Nulls), nn, dev, maxArity)
-	r.Assume = []string{"an empty Types() used as a list item, and Dict{}, are not in the property's list of vanishing items and are not injected", "program level: every 12th corpus file in the quick tier, every file in the thorough tier"}
+	r.Assume = []string{"an empty Types() used as a list item is not in the property's list of vanishing items and is not injected; a Dict without any renderable pair is (it is built only from null items)", "program level: every 12th corpus file in the quick tier, every file in the thorough tier"}
 
 	for ci, lc := range c13Constructs {
 		ci, lc := ci, lc
